@@ -677,17 +677,17 @@ Section Equitable.
 
   Theorem classes_equitable_nowf (m r : mol P B) : classes m = Some r -> equitable r.
   Proof.
-    intros H. destruct (classes_stop _ _ H) as [n [k [-> [Hk' Hk]]]].
+    intros H. destruct (classes_stop _ _ _ _ H) as [n [k [-> [Hk' Hk]]]].
     destruct (iterp_contig n m) as [d HC].
     set (mk := iterp n (pbi m)) in *.
     pose proof (pbp_contig mk) as HC'.
-    pose proof (nparts_nonempty _ Hk) as Hne.
-    pose proof (nparts_nonempty _ Hk') as Hne'.
-    destruct (contig_nparts _ HC Hne) as [Hd E]. destruct (contig_nparts _ HC' Hne') as [Hd' E'].
+    pose proof (nparts_nonempty _ _ Hk) as Hne.
+    pose proof (nparts_nonempty _ _ Hk') as Hne'.
+    destruct (contig_nparts _ _ HC Hne) as [Hd E]. destruct (contig_nparts _ _ HC' Hne') as [Hd' E'].
     rewrite Hk in E. rewrite Hk' in E'.
     assert (Hdd : nclasses Nleb Ngeb (@part P) mk = d).
     { inversion E. inversion E'. lia. }
-    rewrite Hdd in HC'. exact (stable_equitable HC HC').
+    rewrite Hdd in HC'. exact (stable_equitable _ _ HC HC').
   Qed.
 
   (* ---- 4. the main theorem ---- *)
@@ -695,20 +695,20 @@ Section Equitable.
     wfg m -> classes m = Some r ->
     forall x y, In x (atoms r) -> In y (atoms r) -> part x = part y ->
       isort Ngeb (nbr_vals (@part P) r (lbl x)) = isort Ngeb (nbr_vals (@part P) r (lbl y)).
-  Proof. intros _ H. exact (classes_equitable_nowf H). Qed.
+  Proof. intros _ H. exact (classes_equitable_nowf _ _ H). Qed.
 
   Theorem classes_stable (m r : mol P B) :
     wfg m -> classes m = Some r ->
     forall x y, In x (atoms r) -> In y (atoms r) ->
       (part x = part y <-> class_of Nleb Ngeb (@part P) r x = class_of Nleb Ngeb (@part P) r y).
-  Proof. intros _ H. apply equitable_stable. exact (classes_equitable_nowf H). Qed.
+  Proof. intros _ H. apply equitable_stable. exact (classes_equitable_nowf _ _ H). Qed.
 
   (* one more round on the result hands out the same number of classes *)
   Theorem classes_contig (m r : mol P B) : classes m = Some r -> exists d, (0 < d)%nat /\ contig r d.
   Proof.
-    intros H. destruct (classes_stop _ _ H) as [n [k [-> [Hk' _]]]].
+    intros H. destruct (classes_stop _ _ _ _ H) as [n [k [-> [Hk' _]]]].
     eexists. split; [|apply pbp_contig].
-    exact (proj1 (contig_nparts _ (pbp_contig _) (nparts_nonempty _ Hk'))).
+    exact (proj1 (contig_nparts _ _ (pbp_contig _) (nparts_nonempty _ _ Hk'))).
   Qed.
 
   (* ---- 5. termination ---- *)
@@ -727,21 +727,21 @@ Section Equitable.
     contig m d -> atoms m <> [] -> (length (atoms m) + 1 <= f + d)%nat -> exists r, refine f m = Some r.
   Proof.
     induction f as [|f IH]; intros m d HC Hne Hf.
-    - pose proof (contig_le_atoms _ HC). lia.
+    - pose proof (contig_le_atoms _ _ HC). lia.
     - rewrite refine_S.
       pose proof (pbp_contig m) as HC'. set (d' := nclasses Nleb Ngeb (@part P) m) in *.
-      destruct (contig_nparts _ HC Hne) as [Hd E].
-      destruct (contig_nparts _ HC' (pbp_nonempty Hne)) as [Hd' E'].
+      destruct (contig_nparts _ _ HC Hne) as [Hd E].
+      destruct (contig_nparts _ _ HC' (pbp_nonempty _ Hne)) as [Hd' E'].
       rewrite E, E'. destruct (N.eqb (N.of_nat d' - 1) (N.of_nat d - 1)) eqn:Ek; [eauto|].
-      apply N.eqb_neq in Ek. pose proof (classes_grow HC HC') as Hg.
-      apply (IH (pbp m) d' HC' (pbp_nonempty Hne)).
+      apply N.eqb_neq in Ek. pose proof (classes_grow _ _ _ HC HC') as Hg.
+      apply (IH (pbp m) d' HC' (pbp_nonempty _ Hne)).
       unfold partition_by_part. rewrite length_partition_by. lia.
   Qed.
 
   Theorem refine_fuel_suffices (m : mol P B) : atoms m <> [] -> exists r, classes m = Some r.
   Proof.
     intros Hne. unfold classes, refine_fuel.
-    apply (refine_terminates (pbi_contig m)).
+    apply (refine_terminates _ _ _ (pbi_contig m)).
     - unfold partition_by_inv. rewrite atoms_partition_by. destruct (atoms m); simpl; congruence.
     - unfold partition_by_inv. rewrite length_partition_by. lia.
   Qed.
@@ -757,8 +757,84 @@ Section Equitable.
   Theorem rounds_fuel_suffices (m : mol P B) :
     atoms m <> [] -> exists n, rounds (refine_fuel m) (pbi m) = Some n.
   Proof.
-    intros Hne. destruct (refine_fuel_suffices Hne) as [r Hr]. unfold classes in Hr.
+    intros Hne. destruct (refine_fuel_suffices _ Hne) as [r Hr]. unfold classes in Hr.
     destruct (rounds (refine_fuel m) (pbi m)) as [n|] eqn:E; [eauto|].
     apply rounds_refine in E. congruence.
   Qed.
 End Equitable.
+Arguments rep {P} f g l v.
+Arguments equitable {P B} r.
+
+(* ------------------------------------------------------------------------------------------ *)
+(* 6. non-vacuity: ethanol                                                                      *)
+(* ------------------------------------------------------------------------------------------ *)
+Module EthanolExample.
+  Local Open Scope N_scope.
+  Definition H (l : N) : atom unit := mkAtom l 1 None None 0 tt.
+  Definition ethanol : mol unit unit :=
+    mkMol [H 0; H 1; H 2; H 3; H 4; H 5; mkAtom 6 6 None None 0 tt; mkAtom 7 6 None None 0 tt;
+           mkAtom 8 8 None None 0 tt]
+          [(0, 6, tt); (1, 6, tt); (2, 6, tt); (3, 7, tt); (4, 7, tt); (5, 8, tt); (6, 7, tt); (7, 8, tt)].
+
+  Example ethanol_classes :
+    option_map (fun r => map (@part unit) (atoms r)) (classes ethanol) = Some [0; 0; 0; 1; 1; 2; 3; 4; 5].
+  Proof. vm_compute. reflexivity. Qed.
+
+  Example ethanol_rounds : rounds (refine_fuel ethanol) (partition_by_inv ethanol) = Some 2%nat.
+  Proof. vm_compute. reflexivity. Qed.
+
+  Example ethanol_wfg : wfg ethanol.
+  Proof.
+    split.
+    - unfold labels. simpl. repeat constructor; simpl; intuition discriminate.
+    - intros b Hb. simpl in Hb.
+      repeat (destruct Hb as [<-|Hb]; [vm_compute; split; [discriminate|split; tauto]|]).
+      contradiction.
+  Qed.
+
+  (* the hypotheses of the main theorem are satisfiable, and its conclusion holds of the result *)
+  Example ethanol_equitable :
+    exists r, classes ethanol = Some r /\
+              map (@part unit) (atoms r) = [0; 0; 0; 1; 1; 2; 3; 4; 5] /\
+              equitable r /\
+              (forall x y, In x (atoms r) -> In y (atoms r) ->
+                 (part x = part y <->
+                  class_of Nleb Ngeb (@part unit) r x = class_of Nleb Ngeb (@part unit) r y)).
+  Proof.
+    destruct (classes ethanol) as [r|] eqn:E; [|vm_compute in E; discriminate].
+    exists r. split; [reflexivity|]. split.
+    - pose proof ethanol_classes as Hc. rewrite E in Hc. simpl in Hc. inversion Hc. reflexivity.
+    - split.
+      + exact (classes_equitable _ _ _ _ ethanol_wfg E).
+      + exact (classes_stable _ _ _ _ ethanol_wfg E).
+  Qed.
+
+  (* e.g. what the three methyl hydrogens (class 0) and the methylene hydrogens (class 1) see *)
+  Example ethanol_neighbour_classes :
+    option_map (fun r => map (fun x => isort Ngeb (nbr_vals (@part unit) r (lbl x))) (atoms r)) (classes ethanol)
+    = Some [[3]; [3]; [3]; [4]; [4]; [5]; [4; 0; 0; 0]; [5; 3; 1; 1]; [4; 2]].
+  Proof. vm_compute. reflexivity. Qed.
+End EthanolExample.
+
+Print Assumptions rank_lt.
+Print Assumptions rank_inj.
+Print Assumptions rank_mono.
+Print Assumptions rank_attained.
+Print Assumptions rank_contiguous.
+Print Assumptions partition_by_contig.
+Print Assumptions partition_by_nparts.
+Print Assumptions partition_by_refines.
+Print Assumptions partition_by_refines_parts.
+Print Assumptions partition_by_refines'.
+Print Assumptions classes_same_invariant.
+Print Assumptions classes_equitable.
+Print Assumptions classes_stable.
+Print Assumptions classes_contig.
+Print Assumptions refine_fuel_suffices.
+Print Assumptions rounds_fuel_suffices.
+Print Assumptions classes_length.
+Print Assumptions classes_labels.
+Print Assumptions classes_bonds.
+Print Assumptions classes_ident.
+Print Assumptions classes_wfg.
+Print Assumptions EthanolExample.ethanol_equitable.
